@@ -8,7 +8,7 @@ PROP = {
         "finalCommitteeRewards_sum_le", "finalCommitteeRewards_conserved",
         "nextValidationTime_tz_indep", "epochDays_tz_indep", "nextValidation_fixed_eq_asFound_utc", "nextValidationTime_local_tz_dep",
         "weekday_is_a_weekday", "iterate_sorted_perm", "iterate_order_dependent"]] + ["IdenaModel.CeremonyEpoch." + t for t in [
-        "remove_newer", "inv_step", "inv_run", "answers_function_of_chain", "same_chain_same_answers", "as_found_counterexample"]] + ["IdenaModel.Shards." + t for t in [
+        "remove_newer", "inv_step", "inv_run", "answers_function_of_chain", "same_chain_same_answers", "as_found_counterexample", "fork_eval_same_content", "fork_eval_as_found_counterexample"]] + ["IdenaModel.Shards." + t for t in [
         "shardsNum_pos", "shardsNum_grow_bound", "grow_prev", "shrink_pow", "shardsNum_stable"]],
     "channels": [
         {"name": "C01census", "exe": "oracle_c01"},
